@@ -216,6 +216,18 @@ func sdsdotSpecial(u *unifier, a, b ast.Node) (bool, bool) {
 				return false
 			}()
 		}
+	case *ast.ReturnStmt:
+		// the generator rewrites the empty sum `return 0` into `return alpha`
+		y, ok := b.(*ast.ReturnStmt)
+		if !ok || len(x.Results) != 1 || len(y.Results) != 1 {
+			return false, false
+		}
+		if lit, ok := x.Results[0].(*ast.BasicLit); ok && lit.Value == "0" {
+			if id, ok := y.Results[0].(*ast.Ident); ok {
+				return true, id.Name == "alpha"
+			}
+		}
+		return false, false
 	case *ast.CallExpr:
 		y, ok := b.(*ast.BinaryExpr)
 		if !ok || y.Op != token.ADD {
